@@ -2,7 +2,7 @@
 """dev helper: run the shards of one check in-process and summarise violations by tag class.
 usage: devshard.py C05 quick [filter-expr on shard dict, e.g. "s['kind']=='eager' and s['func']=='sum'"] [max_shards]"""
 import sys, os, json, time, collections
-sys.path[:0] = ["/repo", "/verif"]
+sys.path[:0] = [os.environ.get("VERIF_REPO", "/repo"), "/verif"]
 from mc import runner
 runner._worker_init()
 import importlib
